@@ -1,7 +1,7 @@
 /- REGENERATED from /repo on every run by /verif/harness/cmd/extract — do not edit. -/
 namespace Ibx.Gen.Addr2
 
-/-- (file, function, canon, onlyCanon) for every function of the REST / websocket / web-UI controllers that reads ctx.Vars["name"]: canon = the first use is `v, err := ctx.Manager.MailboxForAddress(ctx.Vars["name"])` as a statement of the function body; onlyCanon = that is the only use, and nothing mentions ctx.Manager / ctx.MsgHub before it -/
+/-- (file, function, canon, onlyCanon) for every function of packages pkg/rest and pkg/webui that has a *web.Context parameter C and gets at the URL name (reads C.Vars["name"], or calls a helper that is exactly `return C.Manager.MailboxForAddress(C.Vars["name"])`): canon = the first such use is an unconditional statement `v, err := C.Manager.MailboxForAddress(C.Vars["name"])` (or `:= helper(C)`, or the argument is a local defined as C.Vars["name"] and used nowhere else); onlyCanon = that is the only use, and nothing mentions C.Manager / C.MsgHub before it -/
 def handlers : List (String × String × Bool × Bool) := [
   ("pkg/rest/apiv1_controller.go", "MailboxDeleteV1", true, true),
   ("pkg/rest/apiv1_controller.go", "MailboxListV1", true, true),
@@ -19,49 +19,55 @@ def handlers : List (String × String × Bool × Bool) := [
 /-- number of rows of `handlers` -/
 def handlerCount : Nat := 12
 
-/-- number of index expressions `<x>["name"]` (any x) anywhere in the four controller files; one per handler when every name is read as ctx.Vars["name"] exactly once -/
-def varsNameUses : Nat := 12
+/-- number of index expressions `<x>["name"]` (any x) in pkg/rest and pkg/webui that are NOT the argument of the canonical MailboxForAddress call of a row with canon && onlyCanon (or of the canonical helper): 0 when nobody reads the name through an alias, mux.Vars or a second time -/
+def strayNameReads : Nat := 0
 
-/-- (routes file, handler function) for every `r.Path("…{name}…").Handler(web.Handler(F))` registration -/
+/-- (routes file, handler function) for every `<r>.Path("…{name}…").Handler(web.Handler(F))` registration -/
 def routesWithName : List (String × String) := [("pkg/rest/routes.go", "MailboxDeleteV1"), ("pkg/rest/routes.go", "MailboxListV1"), ("pkg/rest/routes.go", "MailboxMarkSeenV1"), ("pkg/rest/routes.go", "MailboxPurgeV1"), ("pkg/rest/routes.go", "MailboxShowV1"), ("pkg/rest/routes.go", "MailboxSourceV1"), ("pkg/rest/routes.go", "MonitorMailboxMessagesV1"), ("pkg/rest/routes.go", "MonitorMailboxMessagesV2"), ("pkg/webui/routes.go", "MailboxHTML"), ("pkg/webui/routes.go", "MailboxMessage"), ("pkg/webui/routes.go", "MailboxSource"), ("pkg/webui/routes.go", "MailboxViewAttach")]
 
 /-- number of string literals containing "{name}" in the two routes files (each must be one recognised registration) -/
 def routeNameLits : Nat := 12
 
-/-- (s *StoreManager) MailboxForAddress(mailbox string) is exactly `return s.AddrPolicy.ExtractMailbox(mailbox)` -/
+/-- (R *StoreManager) MailboxForAddress(P string) returns exactly R.AddrPolicy.ExtractMailbox(P): `return R.AddrPolicy.ExtractMailbox(P)`, or `v, err := R.AddrPolicy.ExtractMailbox(P)` followed by `return v, err` / `if err != nil { return "", err }; return v, nil` -/
 def mailboxForAddressIsExtract : Bool := true
 
-/-- canonicalDomain(domain) is `if strings.HasPrefix(domain, LIT) { return LIT + strings.ToLower(domain[N:]) }; return strings.ToLower(domain)`: (LIT, N) -/
+/-- canonicalDomain (= the one (string) string helper both naming returns go through; parameter D) is "LIT + strings.ToLower(D[N:]) when strings.HasPrefix(D, LIT), strings.ToLower(D) otherwise" in any if / else / switch arrangement: (LIT, N) -/
 def canonicalDomainShape : Option (String × Nat) := some ("[IPv6:", 6)
 
 /-- bytes of that LIT -/
 def canonicalDomainLit : Option (List Nat) := some [91, 73, 80, 118, 54, 58]
 
-/-- ValidateDomainPart, bracketed branch: `s := 1; if strings.HasPrefix(domain[1:], LIT) { s = N }; net.ParseIP(domain[s : ln-1])`: (LIT, N) -/
+/-- ValidateDomainPart (parameter D): the argument of the one net.ParseIP call is D[S : len(D)-1] where the local S is defined as 1 and is set to N under the one `strings.HasPrefix(D[1:], LIT)` and nowhere else: (LIT, N) -/
 def validateTag : Option (String × Nat) := some ("IPv6:", 6)
 
 /-- bytes of that LIT -/
 def validateTagLit : Option (List Nat) := some [73, 80, 118, 54, 58]
 
-/-- ExtractMailbox: right after `local, err = parseMailboxName(local)` and its error check come `if C0 { return "", error }` and `if C1 || C2 || … { return "", error }`: [C0, C1, C2, …] -/
-def nameShapeTest : Option (List String) := some ["local == \"\"", "local[0] == '.'", "local[len(local)-1] == '.'", "strings.Contains(local, \"..\")"]
+/-- ExtractMailbox: after `X, E := <mailbox-name parser>(result 0 of the raw parser)` and `if E != nil { return "", E }` come only exits that return ("", error); the SET of their conditions ('||' in one guard, consecutive ifs, a switch and an unexported (string) bool / (string) error helper are all the same), sorted, each named from a closed vocabulary — empty: X == "" | len(X) == 0; leadDot: X[0] == '.' | strings.HasPrefix(X, "."); trailDot: X[len(X)-1] == '.' | strings.HasSuffix(X, "."); dotDot: strings.Contains(X, "..") — and anything else as its canonical text with X printed as $x -/
+def nameShapeTest : Option (List String) := some ["dotDot", "empty", "leadDot", "trailDot"]
 
-/-- both ifs lie between the parseMailboxName call and the first `if a.Config.MailboxNaming == config.LocalNaming { return local, nil }`, and no statement before them returns a name (other than the domain-naming dispatch) -/
+/-- the same conditions in evaluation order as canonical text (informative; not pinned) -/
+def nameShapeConds : List String := ["$x == \"\"", "$x[0] == '.'", "$x[len($x) - 1] == '.'", "strings.Contains($x, \"..\")"]
+
+/-- every condition that indexes X (X[0], X[len(X)-1]) is evaluated after the emptiness condition -/
+def nameShapeIndexGuarded : Bool := true
+
+/-- before the last of those exits no statement returns a name (other than the domain-naming dispatch) and nothing mentions config.LocalNaming / config.FullNaming; after it there is an exit `R.Config.MailboxNaming == config.LocalNaming` (if or switch case) returning (X, nil) -/
 def nameShapeBeforeNamingSwitch : Bool := true
 
-/-- the first statement of ExtractMailbox is `if a.Config.MailboxNaming == config.DomainNaming { return extractDomainMailbox(address) }` -/
+/-- the first thing ExtractMailbox(P) does is `R.Config.MailboxNaming == config.DomainNaming` (if or switch case) => `return F(P)`, F an unexported (string) (string, error) function (extractDomainMailbox) -/
 def domainDispatchFirst : Bool := true
 
-/-- first result of the last statement (a return) of ExtractMailbox -/
-def fullReturn : Option String := some "local + \"@\" + canonicalDomain(domain)"
+/-- ExtractMailbox: result 0 of the one `return E, nil` with E other than X itself, printed with X = $x, result 1 of the raw parser = $dom, the (string) string helper = $canon -/
+def fullReturn : Option String := some "$x + \"@\" + $canon($dom)"
 
-/-- first result of the last statement (a return) of extractDomainMailbox -/
-def domainReturn : Option String := some "canonicalDomain(domain)"
+/-- the domain extractor: result 0 of its one `return E, nil`, printed with the variable passed to ValidateDomainPart = $dom and the SAME helper as in fullReturn = $canon -/
+def domainReturn : Option String := some "$canon($dom)"
 
 /-- some non-test file of pkg/server/pop3 imports pkg/policy or mentions ExtractMailbox / MailboxForAddress -/
 def pop3UsesPolicy : Bool := false
 
-/-- pkg/server/pop3/handler.go: every assignment to the session's user field is `s.user = args[0]` (one of them in the USER clause), args is the untouched parameter holding words[1:] of the space-split line, and loadMailbox calls s.store.GetMessages(s.user) -/
+/-- pkg/server/pop3: the session field handed to GetMessages (the mailbox key) is only ever assigned `A[0]`, inside the handler that has the USER clause (once in that clause), where A is that handler's never-written []string parameter; A is result 1 of the command parser at every call of the handler, and the parser returns (strings.ToUpper(W[0]), W[1:]) for W = strings.Split(line, " ") after at most trimming CR / LF -/
 def pop3UserVerbatim : Bool := true
 
 end Ibx.Gen.Addr2
